@@ -7,6 +7,7 @@ import (
 	"sort"
 	"strconv"
 	"strings"
+	"sync"
 	"testing"
 
 	commonpb "go.temporal.io/api/common/v1"
@@ -253,6 +254,77 @@ func TestC13(t *testing.T) {
 		}
 	}
 	pp.Stop()
+	// (3b) the same with a mapping whose remote names are local names too (a chain), and an upstream that answers the first
+	// attempt with Unavailable: whatever the proxy does about the failure (give up, try again), EVERY attempt that reaches the
+	// upstream carries the name mapped exactly once, and so does the answer the caller gets
+	{
+		cmap := [][2]string{{"orders", "orders-eu"}, {"orders-eu", "orders-archive"}}
+		ccfg := config.ClusterConnConfig{}
+		for _, p := range cmap {
+			ccfg.NamespaceTranslation.Mappings = append(ccfg.NamespaceTranslation.Mappings, config.StringMapping{Local: p[0], Remote: p[1]})
+		}
+		pp2, err := startProxyPair(t, ccfg)
+		if err != nil {
+			t.Fatal(err)
+		}
+		once := func(n string, inbound int) string { // the mapping applied exactly once in the direction of the request
+			for _, p := range cmap {
+				if inbound == 0 && p[0] == n {
+					return p[1]
+				}
+				if inbound == 1 && p[1] == n {
+					return p[0]
+				}
+			}
+			return n
+		}
+		for _, inbound := range []int{0, 1} {
+			conn, be := pp2.FromLocal, pp2.Remote
+			if inbound == 1 {
+				conn, be = pp2.FromRemote, pp2.Local
+			}
+			for _, n := range []string{"orders", "orders-eu", "orders-archive", "other"} {
+				for _, failures := range []int{0, 1, 2} {
+					be.Reset()
+					left := failures
+					var mu sync.Mutex
+					be.Respond = func(m string, req proto.Message, md metadata.MD) (proto.Message, error) {
+						mu.Lock()
+						defer mu.Unlock()
+						if left > 0 {
+							left--
+							return nil, status.Error(codes.Unavailable, "upstream restarting")
+						}
+						return &workflowservice.DescribeNamespaceResponse{NamespaceInfo: &namespacepb.NamespaceInfo{Name: req.(*workflowservice.DescribeNamespaceRequest).Namespace}}, nil
+					}
+					resp, err := invoke(conn, describeNs, &workflowservice.DescribeNamespaceRequest{Namespace: n}, nil)
+					op := fmt.Sprintf("dir %d %s %s req", inbound, encMap(cmap), encName(n))
+					for k, c := range be.Calls() {
+						seen := c.Req.(*workflowservice.DescribeNamespaceRequest).Namespace
+						e.Emit(op, encName(seen))
+						e.Evals++
+						e.Count("direction_with_upstream_failures")
+						if seen != once(n, inbound) {
+							e.Violation(map[string]any{"what": fmt.Sprintf("chain mapping %v, upstream answers Unavailable %d time(s) first: attempt %d of the %s call for %q reached the upstream as %q, mapped exactly once it is %q", cmap, failures, k+1, map[int]string{0: "outbound", 1: "inbound"}[inbound], n, seen, once(n, inbound)), "ops": []string{op}})
+						}
+					}
+					mapped, isImage := false, false
+					for _, p := range cmap {
+						mapped = mapped || p[inbound] == n
+						isImage = isImage || p[1-inbound] == n
+					}
+					if err == nil && (mapped || !isImage) {
+						// the upstream echoes the name it was asked about: the caller must get its own spelling back (names that
+						// are images of the mapping without being mapped themselves do not round-trip, by design)
+						if got := resp.(*workflowservice.DescribeNamespaceResponse).GetNamespaceInfo().GetName(); got != n {
+							e.Violation(map[string]any{"what": fmt.Sprintf("chain mapping %v, upstream answers Unavailable %d time(s) first: the caller asked about %q and the answer it got names %q (request and response translation are not inverse on this call)", cmap, failures, n, got), "ops": []string{op}})
+						}
+					}
+				}
+			}
+		}
+		pp2.Stop()
+	}
 	// (4) whole random messages: translate, then translate back with the inverse: identical (names avoid unmapped images)
 	te := newTgEmit()
 	g := te.g
@@ -560,6 +632,23 @@ func TestC14(t *testing.T) {
 			e.Violation(map[string]any{"what": fmt.Sprintf("search attributes at %s (root %s, mapping %s, batch context %d): keys %v -> %v, values untouched=%v, err=%v, equals reference=%v", describePath(g, p), g.Types[p.Root].Go, encMap(mp), padMode, klist, gk, valuesOK, terr, proto.Equal(a, b)), "ops": []string{op, "sapath " + p.opString()}})
 		}
 	}
+	// several LARGE history batches per message, several messages in flight: keys renamed, values and the other keys
+	// untouched in every one of them, also after the later ones have been translated
+	for rep := 0; rep < 3; rep++ {
+		what := translateSeveralBig(tr, true, refOpts{sa: toGoMap(mp)}, func(mi, i int) *historypb.HistoryEvent {
+			return &historypb.HistoryEvent{EventType: enumspb.EVENT_TYPE_UPSERT_WORKFLOW_SEARCH_ATTRIBUTES,
+				Attributes: &historypb.HistoryEvent_UpsertWorkflowSearchAttributesEventAttributes{UpsertWorkflowSearchAttributesEventAttributes: &historypb.UpsertWorkflowSearchAttributesEventAttributes{
+					SearchAttributes: &commonpb.SearchAttributes{IndexedFields: map[string]*commonpb.Payload{
+						"CustomKeywordField": {Data: []byte(fmt.Sprintf("kw-%d-%d-%d", rep, mi, i))}, "Other": {Data: []byte(fmt.Sprintf("other-%d-%d", mi, i))}, "x": {Data: []byte("x")}}}}}}
+		})
+		op := fmt.Sprintf("# several-big-batches %d", rep)
+		e.Emit(op, "#")
+		e.Evals++
+		e.Count("several_big_batches")
+		if what != "" {
+			e.Violation(map[string]any{"what": "search attributes in large history batches: " + what, "ops": []string{op}})
+		}
+	}
 	for _, r := range roots {
 		if g.RootSvc[r] == "workflow" {
 			continue // the translator is not applied to WorkflowService traffic
@@ -834,7 +923,7 @@ func TestC16(t *testing.T) {
 			// cannot fix (any other string: the request must be refused, not passed on unchecked)
 			if hasBlobStep(p) {
 				for _, name := range []string{"allowed-ns", "forbidden-ns"} {
-					for variant := 0; variant < 3; variant++ {
+					for variant := 0; variant < 4; variant++ { // 3 = all valid, the blob in the serializer's other wire encoding (JSON)
 						if !e.Thorough() && variant > 0 && name == "allowed-ns" && rng.IntN(3) != 0 {
 							continue
 						}
@@ -845,7 +934,7 @@ func TestC16(t *testing.T) {
 						mapEventBlobs(m.ProtoReflect(), func(evs []*historypb.HistoryEvent) []*historypb.HistoryEvent {
 							var extra *historypb.HistoryEvent
 							switch variant {
-							case 0:
+							case 0, 3:
 								extra = plainPadEvent(91)
 							case 1:
 								extra = failurePadEvent(91)
@@ -880,7 +969,11 @@ func TestC16(t *testing.T) {
 						if len(enc) == 0 {
 							enc = []string{"."}
 						}
-						if variant > 0 && corruptBlobs(m.ProtoReflect()) == 0 {
+						if variant == 3 {
+							if jsonEncodeBlobs(m.ProtoReflect()) == 0 {
+								continue
+							}
+						} else if variant > 0 && corruptBlobs(m.ProtoReflect()) == 0 {
 							e.Count("blob_not_corrupted")
 							continue
 						}
@@ -916,14 +1009,14 @@ func TestC16(t *testing.T) {
 							what = "was refused and still reached the handler"
 						case variant == 2 && dec != "denied":
 							what = "holds a blob that can neither be decoded nor repaired, and was passed on unchecked"
-						case variant < 2 && allAllowed && dec != "forward" && !denyListed(fullFor(r)):
+						case variant != 2 && allAllowed && dec != "forward" && !denyListed(fullFor(r)):
 							what = "names only allowed namespaces and was refused"
-						case variant == 0 && name == "forbidden-ns" && dec != "denied":
+						case (variant == 0 || variant == 3) && name == "forbidden-ns" && dec != "denied":
 							what = "was not refused"
 						}
 						if what != "" {
 							e.Violation(map[string]any{"what": fmt.Sprintf("request naming %q at %s (root %s) inside a history batch of several events (%s) %s (decision %s, handler called %v)", name, describePath(g, p), g.Types[r].Go,
-								[]string{"all valid", "one failure message with invalid UTF-8", "one non-failure string with invalid UTF-8"}[variant], what, dec, called), "ops": []string{op}})
+								[]string{"all valid", "one failure message with invalid UTF-8", "one non-failure string with invalid UTF-8", "all valid, JSON-encoded blob"}[variant], what, dec, called), "ops": []string{op}})
 						}
 					}
 				}
